@@ -53,6 +53,74 @@ def rule_r1(ck, prog, rule='C08.R1'):
                'the attribute-set hash does not fold every key and every value: different sets collide systematically / equal sets can differ')
 
 
+def rule_r1_consistency(ck, prog, rule='C08.R1'):
+    """hash and equality agree: equality compares the contents; each value hash is std::hash of the value itself (a hash of the
+    representation separates values that compare equal, e.g. 0.0 and -0.0)"""
+    n_scalar = 0
+    for f in sorted(prog.functions('sdk::common::GetHash'), key=lambda x: x.key):
+        if len(f.params) != 2:
+            continue
+        pt = f.params[1]['t']
+        if 'std::vector<' in pt:
+            # element-wise: a loop over the whole vector, each element through GetHash
+            loops = [n for n in f.nodes if n['k'] == 'forrange' and strip_casts(f, n['range']).get('id') == f.params[1]['id']]
+            ok = len(loops) == 1 and not [f.nodes[i] for i in f.subtree(loops[0]['body']) if f.nodes[i]['k'] in ('break', 'return', 'continue', 'if')] and \
+                any(f.nodes[i]['k'] == 'call' and strip_targs(f.nodes[i].get('c', '')).endswith('common::GetHash') for i in f.subtree(loops[0]['body']))
+            ck.verdict(ok, rule, f, 'value-hash(%s)' % pt.split('std::vector<', 1)[1].split('>')[0][:20] + '[]', loops[0] if loops else None,
+                       'every element folded through GetHash' if ok else 'the array hash does not fold every element')
+            continue
+        n_scalar += 1
+        site = 'value-hash(%s)' % pt.replace('const', '').replace('&', '').replace(' ', '').rsplit('::', 1)[-1][:24]
+        hs = [n for n in f.nodes if n['k'] == 'call' and strip_targs(n.get('c', '')).startswith('std::hash') and n.get('op') == '()']
+        if len(hs) != 1:
+            ck.inconclusive(rule, f, site, None, 'shape of the value hash not recognised (%d std::hash applications)' % len(hs))
+            continue
+        h = hs[0]
+        a = strip_casts(f, h['args'][0])
+        hops = 0
+        while a['k'] == 'construct' and 'basic_string' in a.get('c', '') and hops < 3 and \
+                len([x for k, x in enumerate(a.get('args', [])) if k not in a.get('defargs', [])]) == 1:
+            a = strip_casts(f, a['args'][0])
+            hops += 1
+        ok = a['k'] == 'ref' and a.get('id') == f.params[1]['id']
+        why = 'std::hash is applied to something other than the value itself (a copy of its representation?): values that compare equal, e.g. 0.0 and -0.0, can hash differently and become two series'
+        if ok:
+            ht = h.get('ck') or ''
+            base = pt.replace('const', '').replace('&', '').replace(' ', '')
+            want = {'char*': 'basic_string'}.get(base, base)
+            ht = ht.replace(' ', '')
+            ok = ('hash<' + want) in ht.replace('const ', '') or (want == 'basic_string' and 'basic_string' in ht) or ('std::basic_string' in want and 'basic_string' in ht)
+            why = 'the value is hashed through std::hash of another type (%s for %s): the conversion can merge or separate values differently from equality' % (ht[:40], base)
+        ck.verdict(ok, rule, f, site, h, 'std::hash<T> of the value itself' if ok else why)
+    if n_scalar < 8:
+        raise AnalysisBroken('only %d scalar GetHash instantiations found' % n_scalar)
+    # equality of the series key compares the contents
+    r = prog.record('sdk::metrics::FilteredOrderedAttributeMap')
+    eqs = [prog.funcs[m['key']] for m in r['methods'] if m.get('name') == 'operator==' and m['key'] in prog.funcs]
+    if not eqs:
+        raise AnalysisBroken('FilteredOrderedAttributeMap::operator== not found')
+    f = eqs[0]
+    rets = [n for n in f.nodes if n['k'] == 'return']
+    ok = len(rets) == 1
+    if ok:
+        conj = []
+        stack = [rets[0]['e']]
+        top_or = False
+        while stack:
+            x = strip_casts(f, stack.pop())
+            if x['k'] == 'binop' and x['op'] == '&&':
+                stack += [x['lhs'], x['rhs']]
+            elif x['k'] == 'binop' and x['op'] == '||':
+                top_or = True
+            else:
+                conj.append(x)
+        content = [x for x in conj if x['k'] == 'call' and strip_targs(x.get('c', '')).endswith('operator==') and
+                   any('std::map<' in (f.nodes[a].get('t') or '') or 'OrderedAttributeMap' in (f.nodes[a].get('t') or '') for a in x.get('args', []))]
+        ok = bool(content) and not top_or
+    ck.verdict(ok, rule, f, 'equality-compares-contents', rets[0] if rets else None, 'equality requires the sorted maps to be equal element-wise' if ok else
+               'equality of two attribute sets does not require their contents to be equal (hash / size only): the value hash ignores the alternative\'s type, so {k:true} and {k:1} collapse into one series')
+
+
 def rule_r2(ck, prog, rule='C08.R2', cls='sdk::metrics::FilteredOrderedAttributeMap'):
     r = prog.record(cls)
     sentinel = any(fd['name'] == 'hash_' and fd.get('hasinit') for fd in r['fields'])
@@ -215,6 +283,7 @@ def rule_r4(ck, prog, rule='C08.R4', cls='sdk::metrics::AttributesHashMapWithCus
 
 def rule_r5(ck, prog, rule='C08.R5', cls='sdk::metrics::AttributesHashMapWithCustomHash'):
     cnt = 0
+    replacing = False
     for sf in sorted(prog.functions(cls + '::Set'), key=lambda x: x.line):
         if len(sf.params) != 2:
             continue
@@ -232,8 +301,43 @@ def rule_r5(ck, prog, rule='C08.R5', cls='sdk::metrics::AttributesHashMapWithCus
                 if merges:
                     ck.holds(rule, sf, site, n, 'merged with the stored overflow value')
                 else:
+                    replacing = True
                     ck.violation(rule, sf, site, n,
                                  'Set stores the new aggregation over the shared overflow key without merging it with what is already stored there: earlier overflow contributions are lost')
+    # exposure: while Set replaces the overflow value, a table created with a *configured* limit must not be filled through
+    # Set — copying the L entries of a full delta table into a table of limit L makes the L-th Set overwrite the real overflow
+    # series. (Tables with the default limit reach that state only at 2000 series: that is the recorded finding itself.)
+    if replacing:
+        n_sites = 0
+        for f in sorted(prog.funcs.values(), key=lambda x: x.key):
+            if not (f.cls or '').startswith('opentelemetry::sdk::metrics::') and not f.d.get('lambda') and not f.qn.startswith('canary::c08'):
+                continue
+            limited = {}
+            for n in f.nodes:
+                if n['k'] == 'declstmt':
+                    for d in n['decls']:
+                        if d.get('init') is not None and d['init'] >= 0:
+                            for j in f.subtree(d['init']):
+                                m = f.nodes[j]
+                                if m['k'] == 'construct' and qmatch(m.get('c', ''), 'AttributesHashMapWithCustomHash::AttributesHashMapWithCustomHash') and \
+                                        not m.get('copymove') and m.get('args') and not m.get('defargs') and 'limit' in ' '.join(str(l[1]) for l in leaves(f, m['args'][0])):
+                                    limited[d['id']] = d['name']
+            if not limited:
+                continue
+            users = [f] + [x for x in prog.funcs.values() if x.d.get('lambda') and x.d.get('parent') == f.key]
+            for u in users:
+                for n in u.nodes:
+                    if n['k'] == 'call' and qmatch(n.get('c', ''), cls + '::Set') and n.get('obj') is not None:
+                        ids = {u.nodes[j].get('id') for j in u.subtree(n['obj']) if u.nodes[j]['k'] == 'ref'}
+                        hit = ids & set(limited)
+                        if hit:
+                            n_sites += 1
+                            ck.violation(rule, f, 'replacing-Set-on-configured-limit-table:%s' % limited[sorted(hit)[0]], n,
+                                         '%s is created with the configured cardinality limit and filled through Set, which replaces the overflow value: merging a full '
+                                         'delta table (limit entries) into it overwrites the overflow series with a regular one and the total is lost for cumulative / multi-reader collection' % limited[sorted(hit)[0]])
+        if not ck._canary and not n_sites:
+            ck.holds(rule, prog.functions(cls + '::Set')[0], 'no-configured-limit-table-filled-through-Set', None,
+                     'tables created with a configured limit are only filled through GetOrSetDefault + Aggregate/Merge')
     return cnt
 
 
@@ -302,7 +406,7 @@ def rule_r7(ck, prog, rule='C08.R7', setters=('sdk::common::OrderedAttributeMap:
 
 
 def run(ck, prog):
-    ck.doc('C08.R1', 'series key type is a sorted map; its hash folds every key and value', 2)
+    ck.doc('C08.R1', 'series key type is a sorted map; its hash folds every key and value; value hashes are std::hash of the value; equality compares contents', 19)
     ck.doc('C08.R2', 'hash typestate: every constructor / mutation of FilteredOrderedAttributeMap ends in UpdateHash()', 5)
     ck.doc('C08.R3', 'the configured cardinality limit reaches every AttributesHashMap a storage creates', 3)
     ck.doc('C08.R4', 'overflow guard arithmetic; lookup miss -> overflow test -> insertion in every GetOrSetDefault', 5)
@@ -314,6 +418,7 @@ def run(ck, prog):
     with ck.canary('C08.R7'):
         rule_r7(ck, prog, setters=('canary::c08::BadMap::SetAttribute',))
     rule_r1(ck, prog)
+    rule_r1_consistency(ck, prog)
     rule_r2(ck, prog)
     rule_r3(ck, prog)
     rule_r4(ck, prog)
